@@ -38,7 +38,7 @@ FUNC = ("--no-memory-safety-checks", "--no-overflow-checks", "--no-assertion-rea
 # per-loop unwind bounds, matched against the *current* goto binary's loop list
 # (function-name substring -> bound); the harness attribute gives the small default
 RULES = [("strobe_rs::", 66), ("byteorder::", 26), ("keccak::f1600", 73), ("=memcmp.0", 70),
-         ("index_range::IndexRange", 66), ("array::iter", 66), ("zip::", 26), ("ct_eq", 26), ("zeroize::Zeroize>::zeroize", 66),
+         ("index_range::IndexRange", 66), ("array::iter", 66), ("zip::", 26), ("ct_eq", 26), ("subtle::", 70), ("zeroize::Zeroize>::zeroize", 66),
          ("pow_inv", 6), ("RetryRng", 4), ("random_polynomial", 260), ("Evaluator::gen", 5),
          ("c04::", 140), ("c06::", 30), ("c08::", 140), ("c09::", 140), ("c16::", 140), ("c16b::", 140), ("c05::", 140),
          ("c02::", 140), ("c03::", 140), ("c01::", 140), ("c17::", 140), ("stubs::", 140), ("verif_kani::", 140)]
